@@ -1,5 +1,6 @@
 import OmplModel.Proofs.Soln
 import OmplModel.Proofs.RRTstar
+import OmplModel.Proofs.RRTstarInv
 /-!
 C04 — reported solution costs are truthful, admissible-bounded and only improve: the parts of the
 property that are statements about the problem definition's data structure (A) and about the cost
@@ -112,8 +113,8 @@ theorem top_best {o : Cmp α} (hl : IsSWO o.lt) (hb : IsSWO o.better) (h : Bool)
     refine ⟨hlt, ?_, ?_, ?_, ?_⟩ <;>
     · unfold Soln.lt at hlt
       rcases x with ⟨xi, xa, xd, xo, xh, xc, xl⟩
-      rcases t' with ⟨ti, ta, td, to, th, tc, tl⟩
-      cases xa <;> cases ta <;> cases xo <;> cases to <;> cases xh <;> simp_all
+      rcases t' with ⟨ti, ta, td, topt, th, tc, tl⟩
+      cases xa <;> cases ta <;> cases xo <;> cases topt <;> cases xh <;> simp_all
 
 /-- the accessors report the top solution (`getDifference` is `-1` on the empty set,
 `hasExactSolution = hasSolution && !hasApproximateSolution`). -/
@@ -168,9 +169,9 @@ theorem add_best_cost_monotone {o : Cmp α} (hl : IsSWO o.lt) (hb : IsSWO o.bett
       simp only [SolnSet.top, List.head?_cons, Option.some.injEq] at ht
       exact ht ▸ hs a (by simp)
   unfold Soln.lt at hlt
-  rcases t with ⟨ti, ta, td, to, th, tc, tl⟩
+  rcases t with ⟨ti, ta, td, topt, th, tc, tl⟩
   rcases t' with ⟨ui, ua, ud, uo, uh, uc, ul⟩
-  cases to <;> cases uo <;> simp_all
+  cases topt <;> cases uo <;> simp_all
 
 /-- `PathGeometric::cost` is the fold of `motionCost` with `combineCosts` over consecutive states,
 started at `initialCost(front)` and closed with `terminalCost(back)`; identity for the empty path. -/
@@ -312,20 +313,36 @@ theorem rrtstar_optimized_flag_partial {o : Obj σ α} (s : St σ α δ) (r : Re
     subst h3
     rw [h1, h5, hsync g nm hb h4]
 
-/-- PARTIAL (conditional on the cost invariant, which is checked on every real run but not yet proved
-for every script): if every motion obeys `cost = combine(parent.cost, incCost)`,
-`incCost = motionCost(parent.state, state)`, starts have the identity cost, and the parent chain of the
-reported motion reaches a start, then the cost stored with the reported solution IS the cost of the
-reported path under the objective (`PathGeometric::cost`: the fold of `motionCost` with `combine`,
-identity initial and terminal cost) — C04's "equals it for planners that do not defer cost propagation". -/
-theorem rrtstar_stored_cost_truthful_partial {o : Obj σ α} (L : Laws o) (s : St σ α δ) (r : Report σ α δ)
-    (h : report o s = some r) (hinv : ∀ j, CostOK o s.motions j)
-    (hcomplete : ∀ n, (match s.bestGoal with | some g => some g | none => s.approxGoal) = some n →
-      Complete s.motions s.motions.size n) :
+/-- the cost invariant holds in EVERY reachable state (every script, interruption point, continued solve):
+a start has the identity cost; every other motion's `incCost` is `motionCost(parent.state, state)` (for an
+objective that says `isSymmetric()` the rewiring stores the cached reverse cost, which is the same by the
+symmetry law; otherwise it recomputes) and its `cost` is `combine(parent.cost, incCost)` — so
+`updateChildCosts` really restores the whole subtree after every rewiring, and its fuel never runs out. -/
+theorem rrtstar_cost_inv {o : Obj σ α} (L : Laws o) (sp : Space σ δ) (ops : List (Op σ δ)) :
+    (∀ j : Nat, CostOK o (run o sp (St.init o sp) ops).motions j) ∧ (run o sp (St.init o sp) ops).fuelOut = false :=
+  ⟨(run_inv L sp _ ops (init_inv o sp)).1.costOK, (run_inv L sp _ ops (init_inv o sp)).2⟩
+
+/-- the tree invariant holds in EVERY reachable state: children lists are exactly the inverse of the parent
+pointers (no duplicates), and every parent chain reaches a start within `n = #motions` steps (no cycles: the
+strict rewiring test never re-parents an ancestor of the new motion, `ancestor_not_beaten`). -/
+theorem rrtstar_tree_inv {o : Obj σ α} (L : Laws o) (sp : Space σ δ) (ops : List (Op σ δ)) :
+    (∀ (p : Nat) (pm : Motion σ α) (c : Nat), (run o sp (St.init o sp) ops).motions[p]? = some pm →
+      (c ∈ pm.children ↔ ∃ cm : Motion σ α, (run o sp (St.init o sp) ops).motions[c]? = some cm ∧ cm.parent = some p) ∧
+      pm.children.Nodup) ∧
+    (∀ i : Nat, i < (run o sp (St.init o sp) ops).motions.size →
+      Complete (run o sp (St.init o sp) ops).motions (run o sp (St.init o sp) ops).motions.size i) :=
+  ⟨(run_inv L sp _ ops (init_inv o sp)).1.children, (run_inv L sp _ ops (init_inv o sp)).1.complete⟩
+
+/-- C04's "equals it for planners that do not defer cost propagation", for EVERY history: the cost stored with the
+solution `solve()` registers IS the cost of the reported path under the objective (`PathGeometric::cost`: the fold of
+`motionCost` with `combine`, identity initial and terminal cost) — for exact and approximate solutions alike. -/
+theorem rrtstar_stored_cost_truthful {o : Obj σ α} (L : Laws o) (sp : Space σ δ) (ops : List (Op σ δ)) (r : Report σ α δ)
+    (h : report o (run o sp (St.init o sp) ops) = some r) :
     r.storedCost = pathCost (algOf o) o.motionCost (fun _ => o.identity) (fun _ => o.identity)
-      (statesOf s.motions r.pathIdx) := by
-  obtain ⟨_, _, n, nm, h3, h4, h5, h6⟩ := report_spec h
-  obtain ⟨l, hl, hc⟩ := chain_cost o s.motions hinv s.motions.size n nm h4 (hcomplete n h3)
+      (statesOf (run o sp (St.init o sp) ops).motions r.pathIdx) := by
+  have hinv := run_inv L sp _ ops (init_inv o sp)
+  obtain ⟨_, _, n, nm, _, h4, h5, h6⟩ := report_spec h
+  obtain ⟨l, hl, hc⟩ := chain_cost o _ hinv.1.costOK _ n nm h4 (hinv.1.complete n (lt_of_get h4))
   rw [h5, h6, hl, hc]
   cases hl' : l ++ [nm.state] with
   | nil => simp at hl'
@@ -333,12 +350,10 @@ theorem rrtstar_stored_cost_truthful_partial {o : Obj σ α} (L : Laws o) (s : S
     simp only [pathCost, algOf]
     exact (L.id_right _).symm
 
-/-- PARTIAL (the algebraic heart of "rewiring keeps a tree"): a motion whose cost is an ancestor cost
-`a` extended by motion costs (`Desc`, which is what the cost invariant says of every descendant) can never
-offer that ancestor a strictly better cost, so the strict test of the rewiring loop never re-parents an
-ancestor of the new motion under it.  Not yet proved: the induction over `rewireOne`/`updateChildCosts`
-that turns this into "every parent chain ends at a start" for every script. -/
-theorem rrtstar_tree_inv_partial {o : Obj σ α} (L : Laws o) {a c : α} (h : Desc o a c) (x y : σ) :
+/-- the algebraic heart of acyclicity, on its own: a motion whose cost is an ancestor cost `a` extended by motion
+costs can never offer that ancestor a strictly better cost.  (With `<=` instead of `<` this fails on a tie: see
+`rrtstar_le_rewire_cycles`.) -/
+theorem rrtstar_rewire_never_beats_ancestor {o : Obj σ α} (L : Laws o) {a c : α} (h : Desc o a c) (x y : σ) :
     o.better (o.combine c (o.motionCost x y)) a = false :=
   ancestor_not_beaten L h x y
 
@@ -358,6 +373,25 @@ def natSt : St Nat Nat Nat :=
     bestGoal := some 1, bestCost := 3, approxDist := 0 }
 
 example : (report natObj natSt).map (·.storedCost) = some 3 := by decide
+
+/-- a state obeying the invariant with a zero-length chain `1 → 2 → 3` (three motions at the same place):
+motion 3 (just inserted under 2) offers its ancestor 1 exactly the cost it already has. -/
+def tieSt : St Nat Nat Nat :=
+  { motions := #[⟨0, none, 0, 0, [1], false⟩, ⟨5, some 0, 5, 5, [2], false⟩, ⟨5, some 1, 5, 0, [3], false⟩,
+                 ⟨5, some 2, 5, 0, [], false⟩],
+    bestCost := 1000000, approxDist := 0 }
+
+/-- WITNESS for the `<=` variant of the rewiring test.  In `tieSt`, the candidate "re-parent motion 1 under the
+new motion 3" has new cost `5 + 0 = 5`, exactly motion 1's cost.  The coded strict test refuses it
+(`isCostBetterThan(5, 5)` is false); a `<=` test (`!isCostBetterThan(old, new)`) accepts it; and performing the
+rewiring (`applyRewire`, unchanged) re-parents an ANCESTOR of 3: the parent pointers now cycle `1 → 3 → 2 → 1`, the
+chain from 1 never reaches a start, and `updateChildCosts` exhausts any fuel (in C++: unbounded recursion). -/
+theorem rrtstar_le_rewire_cycles :
+    natObj.better (natObj.combine 5 (natObj.motionCost 5 5)) 5 = false ∧
+    (!natObj.better 5 (natObj.combine 5 (natObj.motionCost 5 5))) = true ∧
+    (applyRewire natObj tieSt 3 1 0 5).fuelOut = true ∧
+    chainUp (applyRewire natObj tieSt 3 1 0 5).motions 4 1 = [1, 3, 2, 1] := by
+  decide
 
 end RRTstar
 
